@@ -481,7 +481,7 @@ def run_depth2(pi: int, res: Dict[str, Any]) -> None:
         fn = s.allobjects[f'm.f{i}']
         res['evals'] += 1
         res['nontrivial_count'] += 1
-        case = {'kind': 'expr', 'sig': t, 'ret': ret, 'default': e, 'annotation': e}
+        case = {'kind': 'expr', 'sig': t, 'ret': ret, 'default': e, 'annotation': e, 'where': 'depth2', 'origin': origin}
         text = text_of(format_signature(fn))
         before = len(res['violations'])
         compare(t, ret, text, 'depth2', case, res)
@@ -590,6 +590,11 @@ def replay(case: Dict[str, Any]) -> List[Dict[str, Any]]:
     else:
         from pydoctor.templatewriter.pages import format_signature
         s = pd.build_mem([pd.Mod('m', f'def f0({case["sig"]}){case["ret"]}: pass\n')])
-        compare(case['sig'], case['ret'], text_of(format_signature(s.allobjects['m.f0'])), 'exprs', case, res)
-        attribute(res['violations'], default_sig(case['default']) if case.get('default') else None, case.get('annotation', ''))
+        if case.get('where') == 'depth2':
+            compare(case['sig'], case['ret'], text_of(format_signature(s.allobjects['m.f0'])), 'depth2', case, res)
+            for v in res['violations']:
+                v['sig'] += '/' + (default_sig(case['default']) or case['origin'].split('<-')[0])
+        else:
+            compare(case['sig'], case['ret'], text_of(format_signature(s.allobjects['m.f0'])), 'exprs', case, res)
+            attribute(res['violations'], default_sig(case['default']) if case.get('default') else None, case.get('annotation', ''))
     return res['violations']
